@@ -233,6 +233,12 @@ func OnceFunc(f func()) func() {
 	var o Once
 	return func() { o.Do(f) }
 }
+func OnceValues[T1, T2 any](f func() (T1, T2)) func() (T1, T2) {
+	var o Once
+	var v1 T1
+	var v2 T2
+	return func() (T1, T2) { o.Do(func() { v1, v2 = f() }); return v1, v2 }
+}
 func OnceValue[T any](f func() T) func() T {
 	var o Once
 	var v T
